@@ -945,7 +945,10 @@ class Message(ABC):
             value = self.__raw_get(name)
             if value is not PLACEHOLDER:
                 kwargs[name] = deepcopy(value)
-        return self.__class__(**kwargs)  # type: ignore
+        new = self.__class__(**kwargs)  # type: ignore
+        new.__dict__["_unknown_fields"] = self._unknown_fields
+        new.__dict__["_serialized_on_wire"] = self._serialized_on_wire
+        return new
 
     def __copy__(self: T, _: Any = {}) -> T:
         kwargs = {}
@@ -953,7 +956,10 @@ class Message(ABC):
             value = self.__raw_get(name)
             if value is not PLACEHOLDER:
                 kwargs[name] = value
-        return self.__class__(**kwargs)  # type: ignore
+        new = self.__class__(**kwargs)  # type: ignore
+        new.__dict__["_unknown_fields"] = self._unknown_fields
+        new.__dict__["_serialized_on_wire"] = self._serialized_on_wire
+        return new
 
     @classproperty
     def _betterproto(cls: type[Self]) -> ProtoClassMetadata:  # type: ignore
